@@ -352,7 +352,7 @@ def gen_case(rng, tier, op=None, k=None, L=None):
                 b_ = rng.randint(a_, L) if st_ > 0 else rng.randint(-L - 1, a_)
                 c["idx"] = [a_, b_, st_]
         elif ik == "slice":
-            c["idx"] = gen.gen_slice(rng, L)
+            c["idx"] = gen.gen_slice(rng, L, far=True)
         elif ik == "list":
             c["idx"] = [rng.randint(-L, L - 1) for _ in range(rng.randint(1, 5))] if L else []
             if not c["idx"]:
